@@ -7,7 +7,7 @@ operations whose implementation side multiplies by a non-dyadic float (1/r!, exp
 Probe: direct evaluation of the property statement on the real code (orthogonality / span / complement / dimension
 count for the seven structure classes, planted low-rank elements against both certificates, support function).
 """
-import ast, os, itertools, math, json
+import ast, os, io, contextlib, itertools, math, json
 from fractions import Fraction
 import numpy as np
 from . import common
@@ -178,6 +178,12 @@ def translate(ctx=None):
 # ---------------------------------------------------------------------------
 def ints(a):
     return ';'.join(str(int(x)) for x in np.asarray(a).reshape(-1))
+
+
+def rints(a):
+    """integer coding of a float array that must be integral up to rounding"""
+    a = np.asarray(a, dtype=np.float64)
+    return ints(np.round(a)) if np.abs(a - np.round(a)).max(initial=0) < 1e-8 else 'nonintegral'
 
 
 def nat_lists(rows):
@@ -872,6 +878,203 @@ def tie_tripartite(ctx):
 
 
 
+def tie_tripartite_level_k(ctx):
+    """is_ABC_completely_entangled_subspace at hierarchy_k >= 2 on Gaussian-integer tensors: for every multi-index the vector assembled
+    from the captured contraction outputs (both cuts) and the captured symmetric factors is the model's exact vector (op abcveck), and the
+    matrix handed to eigvalsh is the Gram matrix of the model's vectors"""
+    from numqi.matrix_space import _hierarchy as H
+    rng = np.random.default_rng(ctx.np_seed + 16)
+    oe = H.opt_einsum
+    orig_ce, orig_ps, orig_ev = oe.contract_expression, H.project_to_symmetric_basis, np.linalg.eigvalsh
+    cfg = [(2, 2, 2, 2, 2), (2, 3, 2, 2, 2), (2, 2, 2, 1, 2), (2, 2, 2, 2, 3)] + \
+        ([] if ctx.quick() else [(3, 2, 2, 3, 2), (2, 2, 3, 2, 3), (2, 3, 2, 1, 3), (2, 2, 2, 3, 3), (2, 2, 2, 2, 4), (3, 2, 3, 2, 2)])
+    gl = lambda t: ';'.join(f'{int(z.real)},{int(z.imag)}' for z in np.asarray(t).reshape(-1))
+    for dA, dB, dC, N, k in cfg:
+        D = dA * dB * dC
+        ts = rng.integers(-2, 3, size=(N, dA, dB, dC)) + 1j * rng.integers(-2, 3, size=(N, dA, dB, dC))
+        calls, grams = [], []
+
+        def fake_ce(*a, **kw):
+            expr = orig_ce(*a, **kw)
+
+            def run(x, y, *rest, **kw2):
+                out = expr(x, y, *rest, **kw2)
+                calls.append(('cut', np.array(out).reshape(-1)))
+                return out
+            return run
+
+        def fake_ps(vecs, idx, *a, **kw):
+            out = orig_ps(vecs, idx, *a, **kw)
+            calls.append(('sym', np.array(out).reshape(-1), list(idx)))
+            return out
+
+        def fake_ev(m, *a, **kw):
+            grams.append(np.array(m)); return orig_ev(m, *a, **kw)
+        with patched((oe, 'contract_expression', fake_ce), (H, 'project_to_symmetric_basis', fake_ps), (np.linalg, 'eigvalsh', fake_ev)):
+            res = guarded(lambda: H.is_ABC_completely_entangled_subspace(list(ts), hierarchy_k=k))
+        alphas = list(itertools.combinations_with_replacement(range(N), 1 + k))
+        npair = math.comb(1 + k, 2)
+        s_ = k - 1
+        keys = [(j,) for j in range(D)] if N == 1 else list(itertools.combinations_with_replacement(range(D), s_))
+        w = np.array([1.0 if N == 1 else math.sqrt(math.factorial(s_) * _cnt_fact(K)) for K in keys])
+        tline = '|'.join(gl(t) for t in ts)
+        ops = [f'C20 abcveck {dA} {dB} {dC} {N} {";".join(map(str, al))} {tline}' for al in alphas]
+        mo = common.run_model(ops)
+        ok_struct = (not isinstance(res, str)) and len(calls) == 3 * npair * len(alphas) and len(grams) == 1 \
+            and all(calls[3 * i][0] == 'cut' and calls[3 * i + 1][0] == 'cut' and calls[3 * i + 2][0] == 'sym' for i in range(npair * len(alphas)))
+        vecs = []
+        for ai, (al, op, line) in enumerate(zip(alphas, ops, mo)):
+            ctx.count('abc-level-k')
+            if not ok_struct:
+                ctx.disagree(op[:200], 'two cuts and one symmetric factor per pair of positions, one eigvalsh call',
+                             res if isinstance(res, str) else f'{len(calls)} captured calls, {len(grams)} eigvalsh calls'); continue
+            v = np.zeros((D * D, len(keys)), dtype=np.complex128)
+            bad = None
+            pairs = list(itertools.combinations(range(1 + k), 2))
+            for pi, (i0, i1) in enumerate(pairs):
+                c1, c2, sy = calls[3 * (ai * npair + pi)], calls[3 * (ai * npair + pi) + 1], calls[3 * (ai * npair + pi) + 2]
+                rest = [al[x] for x in sorted(set(range(1 + k)) - {i0, i1})]
+                if c1[1].size != D * D or c2[1].size != D * D or sy[1].size != len(keys) or sy[2] != rest:
+                    bad = f'pair {(i0, i1)}: sizes {c1[1].size}, {c2[1].size}, {sy[1].size}, symmetric factor on {sy[2]} (expected {rest})'; break
+                v += np.outer(c1[1] + c2[1], sy[1])
+            if bad:
+                ctx.disagree(op[:200], 'cuts of size D^2, symmetric factor over the remaining positions', bad); continue
+            vecs.append(v.reshape(-1))
+            sc = (4 * v * w).reshape(-1)
+            got = ';'.join(f'{int(round(z.real))},{int(round(z.imag))}' for z in sc) if np.abs(sc - (np.round(sc.real) + 1j * np.round(sc.imag))).max() < 1e-8 else 'nonintegral'
+            if got == line:
+                ctx.agree(op, op)
+            else:
+                ctx.disagree(op[:200], line[:200], got[:200])
+        ctx.count('abc-level-k-gram')
+        opg = f'C20 abcveck-gram {dA} {dB} {dC} {N} {k} {tline}'
+        if not ok_struct or any(x == 'bad-op' for x in mo):
+            ctx.disagree(opg[:200], 'Gram matrix of the model vectors', str(res)[:100]); continue
+        V = []
+        for line in mo:
+            m = np.array([complex(int(e.split(',')[0]), int(e.split(',')[1])) for e in line.split(';')]).reshape(D * D, len(keys))
+            V.append((m / (4 * w)).reshape(-1))
+        V = np.stack(V)
+        G = V @ V.conj().T
+        got = grams[0]
+        if got.shape == G.shape and np.abs(got - G).max() <= 1e-9 * max(1.0, np.abs(G).max()):
+            ctx.agree(opg, opg)
+        else:
+            ctx.disagree(opg[:200], repr(G.tolist())[:300], repr(got.tolist())[:300] if got.shape == G.shape else f'shape {got.shape} vs {G.shape}')
+
+
+def tie_dense_bases(ctx):
+    """get_antisymmetric_basis / get_symmetric_basis (dense, every rank) against the signed-square model tables (ops asbasis, symbasis);
+    rank 2 is what is_ABC_completely_entangled_subspace builds its projectors from"""
+    from numqi.matrix_space import _hierarchy as H
+    ops, impl = [], []
+
+    def coded(arr, r, signed):
+        a = np.asarray(arr, dtype=np.float64)
+        x = a * np.abs(a) * math.factorial(r) if signed else a * a * math.factorial(r)
+        if a.ndim != 2 or np.abs(x - np.round(x)).max(initial=0) > 1e-9 or (not signed and (a < 0).any()):
+            return 'error:not of the form sign*sqrt(integer/r!)'
+        return '|'.join(';'.join(str(int(v)) for v in row) for row in np.round(x))
+    for d, r in [(2, 1), (3, 1), (2, 2), (3, 2), (4, 2), (6, 2), (3, 3), (4, 3)] + ([] if ctx.quick() else [(5, 2), (8, 2), (9, 2), (12, 2), (4, 4), (5, 3), (5, 4), (5, 5), (6, 3)]):
+        ops.append(f'C20 asbasis {d} {r}'); impl.append(guarded(lambda: coded(H.get_antisymmetric_basis(d, r), r, True)))
+    for d, r in [(2, 1), (2, 2), (3, 2), (2, 3), (3, 3), (4, 2)] + ([] if ctx.quick() else [(2, 4), (3, 4), (5, 2), (4, 3), (6, 2), (2, 5), (8, 2)]):
+        ops.append(f'C20 symbasis {d} {r}'); impl.append(guarded(lambda: coded(H.get_symmetric_basis(d, r), r, False)))
+    for d, r in [(2, 3), (3, 0)]:      # rank > dim, rank 0: the implementation asserts
+        ops.append(f'C20 asbasis {d} {r}'); impl.append(guarded(lambda: coded(H.get_antisymmetric_basis(d, r), r, True)).replace('error:assert', 'bad-op'))
+    model = common.run_model(ops)
+    common.compare(ctx, ops, impl, model)
+
+
+def tie_options(ctx):
+    """non-default options whose effect is bookkeeping: get_real_bipartite_numerical_range(method='rotation') (the matrix, direction and
+    kind handed to get_matrix_numerical_range_along_direction; the 1/sqrt2), get_matrix_numerical_range_along_direction(kind='min')
+    (the Hermitian parts at the three bracket angles and at the root), INDEX=None defaults"""
+    import scipy.sparse.linalg, scipy.optimize
+    from numqi.matrix_space import _numerical_range as NR, _hierarchy as H
+    rng = np.random.default_rng(ctx.np_seed + 17)
+    ops, impl = [], []
+    # --- method='rotation'
+    for dA, dB in ([(2, 2), (2, 3), (3, 2)] if ctx.quick() else [(2, 2), (2, 3), (3, 2), (3, 3), (2, 4)]):
+        n = dA * dB
+        a = rng.integers(-3, 4, size=(n, n)); a = a + a.T
+        mat = a.reshape(dA, dB, dA, dB).astype(np.float64)
+        for kind in ('min', 'max'):
+            seen = []
+
+            def fake_along(m, alpha, k='max'):
+                seen.append((np.array(m), alpha, k)); return (float(rng.integers(-5, 6)) * math.sqrt(2) + 0.25, None)
+            with patched((NR, 'get_matrix_numerical_range_along_direction', fake_along)):
+                res = guarded(lambda: NR.get_real_bipartite_numerical_range(mat, kind=kind, method='rotation'))
+            ctx.count('rotation-call')
+            op0 = f'C20 rotation-call {dA} {dB} {kind}'
+            if isinstance(res, str) or len(seen) != 1:
+                ctx.disagree(op0, 'one call of get_matrix_numerical_range_along_direction', str(res) if isinstance(res, str) else f'{len(seen)} calls'); continue
+            m, alpha, k = seen[0]
+            want_val = None
+            if alpha != np.pi / 4 or k != kind or m.shape != (n, n):
+                ctx.disagree(op0, f'direction pi/4, kind {kind}, shape {(n, n)}', f'direction {alpha!r}, kind {k!r}, shape {m.shape}'); continue
+            ctx.agree(op0, op0)
+            # real part: the matrix itself; imaginary part: its partial transpose (model ptB)
+            ops.append(f'C20 ptb {dA} {dB} {ints(mat)}'); impl.append(ints(m.imag))
+            ops.append(f'C20 ptb {dA} {dB} {ints(np.asarray(m.imag).reshape(dA, dB, dA, dB))}'); impl.append(ints(m.real))   # ptB is an involution: back to mat
+    # --- kind='min' (and 'max' again) along a direction: the Hermitian parts handed to eigsh
+    es0, rs0 = scipy.sparse.linalg.eigsh, scipy.optimize.root_scalar
+    herm_ops, herm_seen = [], []
+    for n in ([3, 4, 5] if ctx.quick() else [3, 4, 5, 6, 7]):
+        A = rng.integers(-3, 4, size=(n, n)) + 1j * rng.integers(-3, 4, size=(n, n))
+        for kind in ('min', 'max'):
+            alpha = float(rng.uniform(-1, 7))
+            seen2, root = [], {}
+
+            def cap2(m, *a, **kw):
+                seen2.append(np.array(m)); return es0(m, *a, **kw)
+
+            def cap_root(f, *a, **kw):
+                r = rs0(f, *a, **kw); root['x'] = r.root; root['bracket'] = kw.get('bracket'); return r
+            with patched((scipy.sparse.linalg, 'eigsh', cap2), (scipy.optimize, 'root_scalar', cap_root)):
+                res = guarded(lambda: NR.get_matrix_numerical_range_along_direction(A, alpha, kind=kind))
+            if isinstance(res, str) or 'x' not in root or len(seen2) < 4:
+                ctx.count('herm'); ctx.disagree(f'C20 herm-call {n} {kind}', 'three bracket evaluations, a root', str(res)[:100]); continue
+            am = np.mod(alpha, 2 * np.pi)
+            base = (-am) if kind == 'max' else (np.pi - am)
+            thetas = [base + x for x in (-np.pi / 2, 0, np.pi / 2)] + [root['x']]
+            for t, got in zip(thetas, seen2[:3] + [seen2[-1]]):
+                w = np.exp(1j * t) / 2
+                herm_ops.append(f'C20 herm {n} {fbits(w.real)} {fbits(w.imag)} ' + ';'.join(f'{int(z.real)},{int(z.imag)}' for z in A.reshape(-1)))
+                herm_seen.append(got)
+            # the returned number is the Rayleigh quotient of A at the returned vector, rotated back (value.real)
+            val, evc = res
+            ray = np.vdot(evc, A @ evc) / np.exp(1j * am)
+            ctx.count('along-value')
+            if abs(val - ray.real) <= 1e-9 * max(1.0, abs(ray)):
+                ctx.agree(f'C20 along-value {n} {kind}', ('along-value', n, kind))
+            else:
+                ctx.disagree(f'C20 along-value {n} {kind} alpha={alpha!r}', repr(ray.real), repr(val))
+    mo = common.run_model(herm_ops)
+    for op, line, got in zip(herm_ops, mo, herm_seen):
+        n = int(op.split(' ')[2])
+        want = np.array([float(frac(x.split(',')[0])) + 1j * float(frac(x.split(',')[1])) for x in line.split(';')]).reshape(n, n)
+        ctx.count('herm')
+        if got.shape == want.shape and np.abs(got - want).max() <= 1e-12:
+            ctx.agree(op, op)
+        else:
+            ctx.disagree(op, line[:300], repr(np.asarray(got).tolist())[:300])
+    # --- INDEX=None: the default is range(len(np_list)); exact equality with the explicit list, and with the model
+    for dA, dB, N in [(2, 2, 2), (2, 3, 2), (3, 3, 3)]:
+        mats = rng.integers(-2, 3, size=(N, dA, dB))
+        np_list = [x.astype(np.float64) for x in mats]
+        r0 = guarded(lambda: H.tensor2d_project_to_antisym_basis(np_list))
+        ops.append(f'C20 proj {dA} {dB} {";".join(map(str, range(N)))} {ints(mats)}')
+        impl.append(r0 if isinstance(r0, str) else rints(np.asarray(r0).reshape(-1) * math.factorial(N)) if dA >= N and dB >= N else 'shape')
+        flat = [x.reshape(-1) for x in np_list]
+        s0 = guarded(lambda: H.project_to_symmetric_basis(flat))
+        keys = list(itertools.combinations_with_replacement(range(dA * dB), N))
+        ops.append(f'C20 sympart {dA} {dB} {N} {";".join(map(str, range(N)))} {ints(mats)}')
+        impl.append(s0 if isinstance(s0, str) else rints(np.asarray(s0) * np.array([math.sqrt(math.factorial(N) * _cnt_fact(K)) for K in keys])) if len(s0) == len(keys) else 'shape')
+    model = common.run_model(ops)
+    common.compare(ctx, ops, impl, model, key=lambda op: 'opt-' + op.split(' ')[1])
+
+
 def _guarded_part(ctx, part, tie):
     """robustness of the check: an exception escaping a tie / probe part (signature change, missing attribute, shape error in the
     implementation …) is reported as a broken correspondence resp. as a failure with the traceback — the check never aborts (exit 2)"""
@@ -888,7 +1091,7 @@ def _guarded_part(ctx, part, tie):
 
 
 def correspondence(ctx):
-    for part in (tie_tables, tie_projection, tie_structure, tie_bipartite, tie_numrange, tie_decisions, tie_level_k, tie_tripartite):
+    for part in (tie_tables, tie_projection, tie_structure, tie_bipartite, tie_numrange, tie_decisions, tie_level_k, tie_tripartite, tie_tripartite_level_k, tie_dense_bases, tie_options):
         _guarded_part(ctx, part, tie=True)
 
 
@@ -1471,8 +1674,128 @@ def replay_corpus(ctx):
             ctx.probe_ok(('corpus', fn))
 
 
+def probe_options(ctx):
+    """non-default options and in-library oracles: get_vector_orthogonal_basis(tag_reduce=True) on dependent input; the naive dense
+    projector (`naive_tensor2d_project_to_sym_antisym_basis`, built from the dense bases tied by asbasis/symbasis) against the fast
+    routine; pre-processing of is_vector_linear_independent; method='rotation' against method='eigen' (measured, documented as 'usually'
+    equal)"""
+    import numqi, scipy.linalg
+    from numqi.matrix_space import _misc as M, _hierarchy as H, _numerical_range as NR
+    rng = np.random.default_rng(ctx.np_seed + 18)
+    # --- tag_reduce=True (default) on dependent, unnormalised rows
+    for rep in range(6 if ctx.quick() else 30):
+        n1 = int(rng.integers(2, 8)); rk = int(rng.integers(1, n1 + 1)); extra = int(rng.integers(0, 3))
+        cplx = rep % 2 == 1
+        base = rng.normal(size=(rk, n1)) + (1j * rng.normal(size=(rk, n1)) if cplx else 0)
+        mix = rng.normal(size=(rk + extra, rk)) + (1j * rng.normal(size=(rk + extra, rk)) if cplx else 0)
+        np0 = mix @ base * float(rng.choice([1.0, 1e-3, 50.0]))
+        replay = dict(op='get_vector_orthogonal_basis', tag_reduce=True, np0_re=np0.real.tolist(), np0_im=(np0.imag.tolist() if cplx else None))
+        keep = np0.copy()
+        try:
+            ret = M.get_vector_orthogonal_basis(np0)
+            ret2 = M.get_vector_orthogonal_basis(np0, tag_reduce=True)
+        except Exception as e:
+            ctx.fail('orth-basis-reduce', f'get_vector_orthogonal_basis(tag_reduce=True) raised {type(e).__name__}: {e}', replay); continue
+        true_rank = int(np.linalg.matrix_rank(np0, tol=1e-8 * np.abs(np0).max()))
+        bad = []
+        if not np.array_equal(np0, keep):
+            bad.append('input modified')
+        if ret.shape != (n1 - true_rank, n1) or ret2.shape != ret.shape:
+            bad.append(f'{ret.shape[0]} complement vectors for rank {true_rank} in dimension {n1}')
+        else:
+            if ret.shape[0] and np.abs(ret.conj() @ ret.T - np.eye(ret.shape[0])).max() > 1e-10:
+                bad.append('complement not orthonormal')
+            if ret.shape[0] and np.abs(np0.conj() @ ret.T).max() > 1e-10 * max(1.0, np.abs(np0).max()):
+                bad.append(f'complement not orthogonal to the input rows ({np.abs(np0.conj() @ ret.T).max():.2e})')
+        if bad:
+            ctx.fail('orth-basis-reduce', '; '.join(bad[:2]), replay)
+        else:
+            ctx.probe_ok(('orth-reduce', n1, true_rank, cplx))
+    # --- naive dense projector = fast routine (the relation of the library's own unit test), r = 1, 2; k = 2, 3
+    cfg = [(2, 2, 1, 2, 2), (2, 3, 1, 2, 2), (2, 2, 1, 3, 2), (3, 3, 2, 2, 3)] + ([] if ctx.quick() else [(3, 3, 1, 3, 3), (2, 3, 1, 3, 2), (3, 3, 2, 2, 2), (3, 2, 1, 2, 3)])
+    for dA, dB, r, k, N in cfg:
+        np_list = [rng.normal(size=(dA, dB)) for _ in range(N)]
+        replay = dict(op='naive-vs-fast', dimA=dA, dimB=dB, r=r, k=k, np_list=[x.tolist() for x in np_list])
+        try:
+            alphas = list(itertools.combinations_with_replacement(range(N), r + k))
+            naive = np.stack([H.naive_tensor2d_project_to_sym_antisym_basis([np_list[y] for y in al], r) for al in alphas])
+            hf0 = lambda x: np.einsum(x[0], [0, 1, 2], x[1], [3, 2], [0, 1, 3], optimize=True)
+            fast = np.stack([hf0(H.tensor2d_project_to_sym_antisym_basis(np_list, r, al)) for al in alphas])
+            t0 = [-1] + [x for _ in range(k - 1) for x in (dA, dB)]
+            t1 = [0] + [2 * x + 1 for x in range(k - 1)] + [2 * x + 2 for x in range(k - 1)]
+            basis = H.get_symmetric_basis(dA * dB, k - 1).reshape(t0).transpose(t1).reshape(-1, (dA * dB) ** (k - 1))
+            fast1 = (fast @ basis).reshape(fast.shape[:3] + (dA ** (k - 1), dB ** (k - 1))).transpose(0, 1, 3, 2, 4).reshape(fast.shape[0], -1)
+        except Exception as e:
+            ctx.fail('naive-vs-fast', f'raised {type(e).__name__}: {e}', replay); continue
+        d = np.abs(naive - fast1).max() if naive.shape == fast1.shape else float('inf')
+        ctx.extra['naive_vs_fast_max'] = max(ctx.extra.get('naive_vs_fast_max', 0.0), float(d))
+        if d > 1e-10 * max(1.0, np.abs(naive).max()):
+            ctx.fail('naive-vs-fast', f'({dA},{dB}) r={r} k={k}: the dense projector and tensor2d_project_to_sym_antisym_basis differ by {d:.3e}', replay)
+        else:
+            ctx.probe_ok(('naive-vs-fast', dA, dB, r, k))
+    # --- is_vector_linear_independent: reshape, [Re, Im] for field='real' on complex input, more vectors than coordinates
+    lu0 = scipy.linalg.lu
+    for rep in range(6 if ctx.quick() else 24):
+        n0 = int(rng.integers(1, 5)); shp = (int(rng.integers(1, 4)), int(rng.integers(1, 4)))
+        cplx = rep % 3 != 0; field = 'real' if rep % 2 == 0 else 'complex'
+        a = rng.integers(-3, 4, size=(n0,) + shp) + (1j * rng.integers(-3, 4, size=(n0,) + shp) if cplx else 0)
+        seen = []
+
+        def cap_lu(m, *x, **kw):
+            seen.append(np.array(m)); return lu0(m, *x, **kw)
+        replay = dict(op='is_vector_linear_independent', field=field, np0_re=np.real(a).tolist(), np0_im=np.imag(a).tolist())
+        try:
+            with patched((scipy.linalg, 'lu', cap_lu)):
+                res = M.is_vector_linear_independent(a, field)
+        except Exception as e:
+            ctx.fail('li-preprocessing', f'raised {type(e).__name__}: {e}', replay); continue
+        flat = a.reshape(n0, -1)
+        if field == 'real' and cplx:
+            flat = np.concatenate([flat.real, flat.imag], axis=1)
+        exact_rank = np.linalg.matrix_rank(flat)      # small integers: exact
+        bad = []
+        if flat.shape[0] > flat.shape[1]:
+            if seen or res is not False:
+                bad.append('more vectors than coordinates: expected False without a factorisation')
+        else:
+            gram = flat.conj() @ flat.T
+            if len(seen) != 1 or not np.array_equal(seen[0], gram):
+                bad.append('the matrix handed to lu is not the Gram matrix of the (realified) rows')
+        if bool(res) and exact_rank < n0:
+            bad.append(f'answers independent for integer vectors of rank {exact_rank} < {n0}')
+        if (not res) and exact_rank == n0 and flat.shape[0] <= flat.shape[1]:
+            bad.append(f'answers dependent for independent small-integer vectors')
+        if bad:
+            ctx.fail('li-preprocessing', f'field={field}, complex input={cplx}, shape {a.shape}: ' + '; '.join(bad[:2]), replay)
+        else:
+            ctx.probe_ok(('li', field, cplx, flat.shape[0] > flat.shape[1]))
+    # --- rotation vs eigen (both documented; 'usually' equal): measured, a gross difference without the library's warning is reported
+    for rep in range(3 if ctx.quick() else 12):
+        dA, dB = [(2, 2), (2, 3), (3, 3)][rep % 3]
+        n = dA * dB
+        a = rng.normal(size=(n, n)); a = a + a.T
+        mat = a.reshape(dA, dB, dA, dB)
+        for kind in ('min', 'max'):
+            try:
+                buf = io.StringIO()
+                with contextlib.redirect_stdout(buf):
+                    v_rot = NR.get_real_bipartite_numerical_range(mat, kind=kind, method='rotation')
+                v_eig = NR.get_real_bipartite_numerical_range(mat, kind=kind, method='eigen')
+            except Exception as e:
+                ctx.count('rotation-raised-' + type(e).__name__); continue
+            d = abs(v_rot - v_eig)
+            ctx.extra['rotation_vs_eigen_max'] = max(ctx.extra.get('rotation_vs_eigen_max', 0.0), float(d))
+            warned = 'WARNING' in buf.getvalue()
+            ctx.count('rotation-vs-eigen' + ('-warned' if warned else ''))
+            if d > 1e-5 * max(1.0, abs(v_eig)) and not warned:
+                ctx.fail('rotation-vs-eigen', f'({dA},{dB}) kind={kind}: method=rotation gives {v_rot!r}, method=eigen {v_eig!r}, no warning printed',
+                         dict(op='get_real_bipartite_numerical_range', kind=kind, mat=mat.tolist()))
+            else:
+                ctx.probe_ok(('rotation-vs-eigen', dA, dB, kind))
+
+
 def probe(ctx):
-    for part in (replay_corpus, probe_decomposition, probe_decomposition_graded, probe_planted, probe_numrange, probe_hardening):
+    for part in (replay_corpus, probe_decomposition, probe_decomposition_graded, probe_planted, probe_numrange, probe_hardening, probe_options):
         _guarded_part(ctx, part, tie=False)
 
 
